@@ -42,7 +42,8 @@ TStep      == /\ IsEvent("step") /\ UNCHANGED givars
 TEndCast   == /\ IsEvent("endCast") /\ UNCHANGED <<givars, rcvars>>
               /\ (IF ~active THEN FALSE ELSE k = L1) /\ Tr[l].n = L1 + 1 /\ Tr[l].same
 TGeneric == IsEvent("generic") /\ UNCHANGED <<givars, rcvars>> /\ GenericOK(Tr[l])
-TraceNext == TGeneric \/ TReGrid \/ TReset \/ TIndex \/ TCentre \/ TSetOrigin \/ TSetEnd \/ TStep \/ TEndCast
+TGenericRay == IsEvent("genericray") /\ UNCHANGED <<givars, rcvars>> /\ GenericRayOK(Tr[l])
+TraceNext == TGenericRay \/ TGeneric \/ TReGrid \/ TReset \/ TIndex \/ TCentre \/ TSetOrigin \/ TSetEnd \/ TStep \/ TEndCast
 TraceSpec == TraceInit /\ [][TraceNext]_tvars
 ConstructorOK == Constructed(first, ncells)
 TraceAccepted == TLCGet("stats").diameter - 1 = Len(Tr)
